@@ -24,6 +24,7 @@ import (
 	"errors"
 	"fmt"
 	"sync"
+	"sync/atomic"
 	"time"
 
 	log "github.com/golang/glog"
@@ -61,7 +62,7 @@ type Target struct {
 	name            string             // name of the target
 	t               *ctree.Tree        // actual cache of target data
 	client          func(*ctree.Leaf)  // Function to pass all cache updates to.
-	sync            bool               // denotes whether this cache is in sync with target
+	sync            atomic.Bool        // denotes whether this cache is in sync with target
 	meta            *metadata.Metadata // metadata associated with target
 	lat             *latency.Latency   // latency measurements
 	tsmu            sync.Mutex         // protects latest timestamp
@@ -544,8 +545,8 @@ func (t *Target) gnmiUpdate(n *pb.Notification) (*ctree.Leaf, error) {
 			if !ok {
 				return nil, fmt.Errorf("%v : has value %v of type %T, expected boolean", metadata.Path(metadata.Sync), u.Val, u.Val)
 			}
-			t.sync = tv.BoolVal
-			t.meta.SetBool(metadata.Sync, t.sync)
+			t.sync.Store(tv.BoolVal)
+			t.meta.SetBool(metadata.Sync, tv.BoolVal)
 		case metadata.Connected:
 			tv, ok := u.GetVal().GetValue().(*pb.TypedValue_BoolVal)
 			if !ok {
@@ -604,7 +605,7 @@ func (t *Target) gnmiUpdate(n *pb.Notification) (*ctree.Leaf, error) {
 			return nil, nil
 		}
 		// Compute latency for updated leaves.
-		if t.sync && realData {
+		if realData && t.sync.Load() {
 			// Record latency for post-sync target updates.  Exclude metadata updates.
 			t.lat.Compute(T(n.GetTimestamp()))
 		}
@@ -618,7 +619,7 @@ func (t *Target) gnmiUpdate(n *pb.Notification) (*ctree.Leaf, error) {
 		t.meta.AddInt(metadata.LeafCount, 1)
 		t.meta.AddInt(metadata.AddCount, 1)
 		// Compute latency for new leaves.
-		if t.sync {
+		if t.sync.Load() {
 			// Record latency for post-sync target updates.  Exclude metadata updates.
 			t.lat.Compute(T(n.GetTimestamp()))
 		}
